@@ -50,6 +50,12 @@ def spell_imm(rng, tok, allow_char=True):
         return ("-" if neg else "") + "0b" + bin(m)[2:]
     if allow_char and 32 <= v < 127 and chr(v) not in "'\\\"":
         return "'" + chr(v) + "'"
+    # every escape the lexer knows, and code points beyond ASCII (typed, or as \\uXXXX)
+    ESC = {0: "\\0", 8: "\\b", 9: "\\t", 10: "\\n", 12: "\\f", 13: "\\r", 34: '\\"', 39: "\\'", 92: "\\\\"}
+    if allow_char and v in ESC:
+        return "'" + ESC[v] + "'"
+    if allow_char and 0xA0 <= v < 0x10000 and not (0xD800 <= v <= 0xDFFF):
+        return "'" + (chr(v) if rng.random() < 0.5 and chr(v).isprintable() else "\\u%04x" % v) + "'"
     return ("-" if neg else "") + "0X" + format(m, "X")
 
 
